@@ -16,6 +16,7 @@ import (
 	"testing"
 	"time"
 
+	"google.golang.org/protobuf/encoding/protowire"
 	"google.golang.org/protobuf/proto"
 	"google.golang.org/protobuf/reflect/protoreflect"
 	"google.golang.org/protobuf/types/known/anypb"
@@ -749,12 +750,26 @@ func alterations(in *injector, b base, duty core.Duty, distinct func(string)) {
 			in.mustReject("referenced-values-removed", "values", b.From, w, b.Name)
 		}
 		for i := range b.W.GetValues() { // exactly one value removed / altered by one byte: must be rejected iff some hash still refers to it
-			for _, how := range []string{"removed", "byte-flipped"} {
+			for _, how := range []string{"removed", "byte-flipped", "padded-with-unknown-field", "padded-with-large-unknown-field"} {
 				w := proto.Clone(b.W).(*pbv1.QBFTConsensusMsg)
-				if how == "removed" {
+				switch {
+				case how == "removed":
 					w.Values = append(w.Values[:i:i], w.Values[i+1:]...)
-				} else if len(w.Values[i].Value) > 0 {
-					w.Values[i].Value[rng.Intn(len(w.Values[i].Value))] ^= 0x01
+				case how == "byte-flipped":
+					if len(w.Values[i].Value) > 0 {
+						w.Values[i].Value[rng.Intn(len(w.Values[i].Value))] ^= 0x01
+					}
+				default:
+					// bytes in a protobuf field the receiver's schema does not know (a newer peer, or padding
+					// added by a relaying member): still a decodable value of the same type, but not the bytes
+					// the signed hash refers to (seeded change C05-r7)
+					n := 1 + rng.Intn(24)
+					if how == "padded-with-large-unknown-field" {
+						n = 20000
+					}
+					pad := make([]byte, n)
+					rng.Read(pad)
+					w.Values[i].Value = protowire.AppendBytes(protowire.AppendTag(append([]byte(nil), w.Values[i].Value...), protowire.Number(1000+rng.Intn(1000)), protowire.BytesType), pad)
 				}
 				if in.e.wellFormed(w, in.target()) != nil {
 					in.mustReject("one-referenced-value-"+how, "values[]", b.From, w, b.Name)
